@@ -4,7 +4,12 @@ import (
 	"bytes"
 	"fmt"
 	"math"
+	"os"
+	"path/filepath"
 	"strings"
+	"time"
+
+	"github.com/richardmorrey/flap/pkg/db"
 
 	"github.com/richardmorrey/flap/pkg/flap"
 	"github.com/richardmorrey/flap/pkg/model"
@@ -388,6 +393,10 @@ func runC13(o *Out, rng *Rng, tier string, replay string) {
 		o.Count("gob_FlapParams")
 	}
 	_ = coq
+	// records stored through the database wrapper while another record of the same table is being encoded:
+	// each must read back as the value that was handed in (the encoder of the first Put is held half-way
+	// while a second Put of the same table completes)
+	c13InterleavedPuts(o, rng.Fork(), filepath.Join(o.dir, "ilv"), fail)
 	o.FlushCases("C13", "From Coq Require Import ZArith List.\nFrom Flap Require Import Model.Codec Run.RunCodec.\nImport ListNotations.\nOpen Scope Z_scope.",
 		"list ccase", "c_mismatches 0%nat", 16)
 }
@@ -413,4 +422,82 @@ func leBig(b []byte) string {
 		return fmt.Sprint(lo)
 	}
 	return fmt.Sprintf("(%d * 18446744073709551616 + %d)", hi, lo)
+}
+
+
+// gatedRecord is a db.Serialize whose encoder can be held at its start and half-way
+type gatedRecord struct {
+	data    []byte
+	entered chan struct{} // closed when To has been entered
+	gate    chan struct{} // To proceeds when this is closed
+	half    bool          // hold after the first half has been written instead of at the start
+}
+
+func (g *gatedRecord) To(b *bytes.Buffer) error {
+	n := 0
+	if g.half {
+		n = len(g.data) / 2
+		b.Write(g.data[:n])
+	}
+	if g.entered != nil {
+		close(g.entered)
+		select {
+		case <-g.gate:
+		case <-time.After(3 * time.Second):
+		}
+	}
+	b.Write(g.data[n:])
+	return nil
+}
+func (g *gatedRecord) From(b *bytes.Buffer) error {
+	g.data = append([]byte(nil), b.Bytes()...)
+	return nil
+}
+
+func c13InterleavedPuts(o *Out, r *Rng, dir string, fail func(sig, what string)) {
+	os.RemoveAll(dir)
+	os.MkdirAll(dir, 0o755)
+	defer os.RemoveAll(dir)
+	ldb := db.NewLevelDB(dir)
+	defer ldb.Release()
+	t, err := ldb.CreateTable("records")
+	if err != nil {
+		return
+	}
+	for k := 0; k < 12; k++ {
+		mk := func() []byte {
+			b := make([]byte, r.Range(1, 300))
+			for i := range b {
+				b[i] = byte(r.Intn(256))
+			}
+			return b
+		}
+		a, b2 := mk(), mk()
+		first := &gatedRecord{data: a, entered: make(chan struct{}), gate: make(chan struct{}), half: k%2 == 1}
+		done := make(chan error, 1)
+		k1, k2 := fmt.Sprintf("a%03d", k), fmt.Sprintf("b%03d", k)
+		go func() { done <- t.Put(k1, first) }()
+		select {
+		case <-first.entered:
+		case <-time.After(3 * time.Second):
+		}
+		second := make(chan error, 1)
+		go func() { second <- t.Put(k2, &gatedRecord{data: b2}) }()
+		select { // a wrapper that serialises its writers keeps the second Put waiting: that is fine
+		case <-second:
+		case <-time.After(200 * time.Millisecond):
+		}
+		close(first.gate)
+		<-done
+		select {
+		case <-second:
+		case <-time.After(3 * time.Second):
+		}
+		var ra, rb gatedRecord
+		ea, eb := t.Get(k1, &ra), t.Get(k2, &rb)
+		o.Count("records_stored_while_another_is_being_encoded")
+		if ea != nil || eb != nil || !bytes.Equal(ra.data, a) || !bytes.Equal(rb.data, b2) {
+			fail("record-stored-during-another-put-reads-back-different", fmt.Sprintf("two records of %d and %d bytes written to one table with overlapping Put calls (first held %v): read back %d bytes (err %v) and %d bytes (err %v)", len(a), len(b2), map[bool]string{false: "at the start of its encoder", true: "half-way through its encoder"}[first.half], len(ra.data), ea, len(rb.data), eb))
+		}
+	}
 }
